@@ -264,7 +264,27 @@ pub fn dispatch_agreement(m: &Model, ctx: &mut Ctx, rule: &str, self_ty: &str, d
                 routed += 1;
                 ctx.func(&g.key);
                 ctx.oblige(rule, &format!("{}->{}", v, callee), true);
-                match ev.select_arm(&g2, &val, &Env::new()) {
+                // the kind alone decides the question asked here; an arm that also tests the payload (`Set(s) if s.members.is_empty()`)
+                // is taken to decline, so that the kind is followed to the arm that accepts it unconditionally
+                let by_kind = || -> Result<(usize, Env), String> {
+                    for (j, arm) in g2.arms.iter().enumerate() {
+                        let mut e2 = Env::new();
+                        match ev.pat_match(&arm.pat, &val, &mut e2) {
+                            PatM::No => continue,
+                            PatM::Unknown(s) => return Err(format!("arm {} `{}`: {}", j, tok(&arm.pat), s)),
+                            PatM::Yes => {
+                                if let Some((_, g)) = &arm.guard {
+                                    if !matches!(ev.eval(g, &mut e2), Ok(Val::Bool(true))) {
+                                        continue;
+                                    }
+                                }
+                                return Ok((j, e2));
+                            }
+                        }
+                    }
+                    Err(format!("no arm matches {}", val.show()))
+                };
+                match by_kind() {
                     Ok((j, _)) if tok(&g2.arms[j].pat) == "_" => ctx.violate(rule, &format!("generator-rejects:{}->{}", v, callee), &g.file, g.line,
                         &format!("{}::{} hands a type assignment of kind {} to {}, whose own test of the kind sends it to the mismatch arm: the assignment yields a warning and no declaration", self_ty, dispatcher, v, callee)),
                     Ok(_) => {}
